@@ -1,4 +1,5 @@
 import RustCcModel.Model.Machine
+import RustCcModel.Proofs.TraceFlagEv
 /-! # C12 — collector phases are observable and collections never nest
 
 Step-level facts of the machine (the global part — "idle ⇒ all flags false", which makes
@@ -60,5 +61,38 @@ theorem finAgain_panics_in_callbacks (c : Cfg) (w : World) (self wc : Option Id)
 
 theorem raise_keeps_heap (w : World) : w.raise.heap = w.heap ∧ w.raise.pc = w.pc ∧ w.raise.H = w.H := by
   unfold raise; split <;> simp
+
+/-! ### The first sentence, for every reachable world (all nestings of callbacks, caught panics included) -/
+
+/-- **Every event of every reachable log carries the right value of `is_tracing()`**: `true` on each `trace` call,
+`false` on each finalizer, destructor and cleaning-action call. -/
+theorem tracing_flag_of_every_callback (c : Cfg) (nH nW nK : Nat) (w : World) (h : Reachable c nH nW nK w) :
+    (∀ x t, Event.trace x t ∈ w.events → t = true) ∧
+    (∀ x t, Event.finalize x t ∈ w.events → t = false) ∧
+    (∀ x t, Event.drop x t ∈ w.events → t = false) ∧
+    (∀ a t, Event.action a t ∈ w.events → t = false) := by
+  have := reachable_tf h
+  unfold TF at this
+  rw [List.all_eq_true] at this
+  refine ⟨fun x t he => ?_, fun x t he => ?_, fun x t he => ?_, fun a t he => ?_⟩
+  all_goals (have h1 := this _ he; simpa using h1)
+
+/-- **`is_tracing()` is false whenever anything but the collector's own loop is about to run** — in particular while any
+script (the body of a finalizer, destructor, cleaning action, `new_cyclic` closure or top-level operation) is on top of
+the stack, whatever encloses it. -/
+theorem not_tracing_unless_collector_on_top (c : Cfg) (nH nW nK : Nat) (w : World) (h : Reachable c nH nW nK w)
+    (f : Frame) (rest : List Frame) (hs : w.stack = f :: rest) (hq : f.quiet = false) : w.isTracing c = false := by
+  have ht := reachable_tOk h
+  rw [hs] at ht
+  refine isTracing_false_of_nt c w (reachable_all c nH nW nK w h).flags (by rw [hs]; exact nt_of_top ht hq) ?_
+  exact fun hc => (reachable_nf hc h).1
+
+/-- **`is_tracing()` is true whenever a tracing pass is about to run.** -/
+theorem tracing_when_pass_on_top (c : Cfg) (nH nW nK : Nat) (w : World) (h : Reachable c nH nW nK w)
+    (rest : List Frame) (hs : w.stack = .collectPass :: rest) : w.isTracing c = true :=
+  isTracing_true_of_pass c w rest hs (reachable_all c nH nW nK w h).flags (reachable_all c nH nW nK w h).inv.wf
+
+/-- Non-vacuity: a script frame is not a collector frame, a pass frame is. -/
+example : (Frame.script [.collect] (some 0) none false).quiet = false ∧ Frame.collectPass.quiet = true := ⟨rfl, rfl⟩
 
 end RustCc.C12
